@@ -127,6 +127,15 @@ func genEntrySpec(r *Rng, hasOpen bool) *EntrySpec {
 	switch k := r.Intn(12); {
 	case k == 0:
 		e.Kind = "invalid"
+		if r.Chance(1, 3) {
+			// a blank first line followed by continuation lines: the entry line itself is missing
+			e.Value = r.Pick([]string{"", " ", "\t", "  "})
+			e.Summary = []string{"", r.Pick([]string{"foo", "1h", "8:00 - 9:00", "x y"})}
+			if r.Chance(1, 3) {
+				e.Summary = append(e.Summary, genSummaryText(r))
+			}
+			return e
+		}
 		e.Value = r.Pick([]string{"25:00 - 26:00", "foo", "1h30", "9:00 -", "12:00 - 11:00", "8:00 - 9:00xm", "1:00pm>-", "<8:00> - 9:00", "-", "1h2h"})
 	case k < 5:
 		e.Kind = "duration"
@@ -392,7 +401,7 @@ func (g *genState) chooseKind(file string) string {
 	return kinds[r.Intn(len(kinds))]
 }
 
-var readOnlyCmds = [][]string{{"print"}, {"total"}, {"total", "--now"}, {"json"}, {"json", "--now"}, {"today"}, {"report"}, {"tags"}}
+var readOnlyCmds = [][]string{{"print"}, {"total"}, {"total", "--now", "--decimal", "--no-style"}, {"json"}, {"json", "--now"}, {"today"}, {"report"}, {"tags"}}
 
 func (histEngine) generate(property string, seed int64, index int, tier string) *Scenario {
 	r := newRng(seed, "hist", property, fmt.Sprint(index))
@@ -525,6 +534,13 @@ func (histEngine) generate(property string, seed int64, index int, tier string) 
 				op.Plan.KillAtEvent = r.Range(1, 10)
 			case k == 1 && op.mutating():
 				g.userEdit(&op, file)
+			case k == 2:
+				// an I/O error that klog must either report or fully recover from
+				op.Plan.MetaFailNth = r.Range(1, 4)
+			case k == 3:
+				op.Plan.WriteNth = 1
+				op.Plan.WriteFault = r.Pick([]string{"error_before", "error_after"})
+				op.Plan.WriteCut = r.Intn(4096)
 			}
 		}
 		if op.Kind != "pause" && len(op.Argv) == 0 {
@@ -614,7 +630,7 @@ func (g *genState) genC05Faults(op *Op, file string) {
 
 var c17Selections = []string{"", "today", "yesterday", "tomorrow", "explicit"}
 var c17Layouts = []string{"none", "today-open", "yesterday-open", "both-open", "today-closed+yesterday-open"}
-var c17Cmds = []string{"start", "stop", "switch", "json-now"}
+var c17Cmds = []string{"start", "stop", "switch", "json-now", "total-now"}
 var c17Roundings = []int{0, 5, 10, 12, 15, 20, 30, 60}
 
 func c17Cells() int {
@@ -726,6 +742,8 @@ func genC17(r *Rng, seed int64, index int, tier string) *Scenario {
 	var op Op
 	if c17Cmds[ci] == "json-now" {
 		op = Op{Kind: "json", File: "a.klg", Argv: []string{"json", "--now", "$FILE:a.klg"}}
+	} else if c17Cmds[ci] == "total-now" {
+		op = Op{Kind: "total", File: "a.klg", Argv: []string{"total", "--now", "--decimal", "--no-style", "$FILE:a.klg"}}
 	} else {
 		op = Op{Kind: c17Cmds[ci], File: "a.klg"}
 		a := &op.Args
